@@ -18,12 +18,17 @@ PROOFS = {
     'C08': ['Typename.instantiated_name', 'instantiate_name', 'InstantiatedMethod.to_cpp', 'InstantiatedStaticMethod.to_cpp',
             'InstantiatedGlobalFunction.to_cpp', 'InstantiatedConstructor.to_cpp', 'Typename.__init__', 'Class.namespaces',
             'ForwardDeclaration.namespaces', 'InstantiatedClass.cpp_typename', 'InstantiatedClass.to_cpp',
-            'InstantiatedDeclaration.to_cpp'],
+            'InstantiatedDeclaration.to_cpp',
+            # the instantiated nodes are built from the right pieces: name = template name + capitalised argument names,
+            # instantiation list kept, signature from instantiate_args_list / instantiate_return_type
+            'InstantiatedMethod.__init__', 'InstantiatedStaticMethod.__init__', 'InstantiatedConstructor.__init__',
+            'InstantiatedGlobalFunction.__init__', 'InstantiatedDeclaration.__init__', 'InstantiatedMethod.construct',
+            'InstantiatedStaticMethod.construct', 'InstantiatedConstructor.construct'],
     'C02': ['instantiate_args_list', 'instantiate_return_type'],
     'C13': [],
     'C15': [],
 }
-MODULES_EXTRA = {'C02': ['contracts.parser']}
+MODULES_EXTRA = {'C02': ['contracts.parser'], 'C08': ['contracts.parser', 'contracts.instantiator']}
 CATS = {
     'C03': {'presence', 'readable'},
     'C04': {'forwarding'},
